@@ -197,7 +197,9 @@ def run_queue(ctx, pid, want_keys):
         for k, key, what in hits:
             if want_keys(key):
                 res.failures.append({"key": key, "what": "op %d `%s`: %s" % (k, ops[k], what), "ops": ops[:k + 1]})
-        if not hits and orc.pending and ops[-1] == "deq" and ops[-2] == "conf" and want_keys(pid + ":never-transmitted"):
+        tail = ["conf", "deq"] * (2 * orc.total + 2)
+        drained = len(ops) > len(tail) and ops[-len(tail):] == tail          # (the enumerated sessions have no drain phase)
+        if not hits and orc.pending and drained and want_keys(pid + ":never-transmitted"):
             res.failures.append({"key": pid + ":never-transmitted", "what": "after %d rounds of conf;deq still pending: %s" % (orc.total * 2 + 2, sorted(orc.pending)), "ops": ops})
         refused = sum(1 for o, x in zip(ops, outs) if o[0] == "q" and x == "0")
         blocked = any(o == "deq" and x == "e" for o, x in zip(ops, outs))
@@ -318,7 +320,7 @@ def run_c13(ctx, replay_path=None):
                 "`raw` compares the private bytes/next_/outstanding. Each outcome is judged by the set oracle (nothing accepted may "
                 "vanish, nothing may be delivered twice). distinct = distinct (state, producer) pairs with more than one outcome")
     sessions = [ops for _, ops in ctx.corpus()]
-    n = 150 if ctx.thorough else 16
+    n = 48 if ctx.thorough else 16
     for i in range(n):
         ci = [1, 0, 7, 3, 4, 5, 2, 6][i % 8] if ctx.thorough else [1, 0, 7, 3, 4, 5, 2, 0][i % 8]
         sessions.append(gen_c13_session(ctx.rng, ci, 2 if ci in (2, 6) else 4))
